@@ -58,9 +58,37 @@ func (m *EscrowMonitor) OnTx(h *History, o *TxObs) {
 	if d.TxOK {
 		method = string(d.Tx.Method)
 	}
+	// runtime support: a successful transaction may itself slash (roothash equivocation evidence);
+	// the price of the slashed pools falls legitimately, by the same fraction in both pools.
+	slashedByTx := map[staking.Address]bool{}
+	if o.Err == nil {
+		for _, ev := range StakingEvents(o.Height, o.Events) {
+			if ev.Escrow == nil || ev.Escrow.Take == nil {
+				continue
+			}
+			t := ev.Escrow.Take
+			slashedByTx[t.Owner] = true
+			if acct := pre.Accounts[t.Owner]; acct != nil {
+				a, d := acct.Escrow.Active.Balance.ToBigInt(), acct.Escrow.Debonding.Balance.ToBigInt()
+				sd := t.DebondingAmount.ToBigInt()
+				sa := new(big.Int).Sub(t.Amount.ToBigInt(), sd)
+				lhs := new(big.Int).Sub(new(big.Int).Mul(sa, d), new(big.Int).Mul(sd, a))
+				lhs.Abs(lhs)
+				bound := a
+				if d.Cmp(a) > 0 {
+					bound = d
+				}
+				m.SlashFractionChecks++
+				if sa.Cmp(a) > 0 || sd.Cmp(d) > 0 || (lhs.Cmp(bound) >= 0 && bound.Sign() > 0) {
+					w := txWitness(h, o)
+					m.Rep.Violation("c15/l2/slash-takes-different-fractions/"+method, fmt.Sprintf("slash of %s by a transaction took %s of active balance %s and %s of debonding balance %s", t.Owner, sa, a, sd, d), w)
+				}
+			}
+		}
+	}
 	for esc, dels := range pre.Deleg {
 		pa, qa := pre.Accounts[esc], post.Accounts[esc]
-		if pa == nil || qa == nil {
+		if pa == nil || qa == nil || slashedByTx[esc] {
 			continue
 		}
 		for del, sh := range dels {
@@ -83,7 +111,7 @@ func (m *EscrowMonitor) OnTx(h *History, o *TxObs) {
 	}
 	for esc, dels := range pre.Debond {
 		pa, qa := pre.Accounts[esc], post.Accounts[esc]
-		if pa == nil || qa == nil {
+		if pa == nil || qa == nil || slashedByTx[esc] {
 			continue
 		}
 		for del, list := range dels {
